@@ -31,6 +31,10 @@ func TestMain(m *testing.M) {
 			"after '{' and before '}'; every ordered pair of 35 statement shapes; the shipped examples) are formatted twice per mode: format(format(t)) must equal format(t) byte for byte, " +
 			"normal-mode output must end with exactly one newline, formatting the same tree again must give the same bytes; batches of programs are formatted in generated order, in a permuted " +
 			"order interleaved with parsing unrelated texts (token interning), and in a child process (fresh map seed): the bytes per program must not depend on any of that. " +
+			"Routes: generated programs (most given a first statement that starts with a unary operator or the smallest integer and / or a last statement that ends with a postfix ++/-- or a comment ending in a sign), " +
+			"every pair of 20 such first and 10 such last statements, and the shipped examples are sent through repl.EvalOne under the 10 configurations the command line can produce (format only, evaluation, -parse, " +
+			"interactive with and without -parse, each normal and compact; whole-text and line mode; one interpreter state, nothing executed): the text returned (history) and the text shown must be byte for byte " +
+			"what plain formatting of the same input gives in that mode. " +
 			"Non-trivial: program with >= 1 comment or >= 1 map literal or >= 2 statements; distinct by text.",
 		Assumptions: []string{
 			"idempotence is only claimed for text the parser accepts; inputs whose first formatting does not re-parse are C02's subject and are skipped here",
@@ -322,6 +326,14 @@ func oracle(kind string, raw json.RawMessage) error {
 	var c Case
 	if err := json.Unmarshal(raw, &c); err != nil {
 		return err
+	}
+	if strings.HasPrefix(kind, "route") {
+		if _, err := checkRoutes(c); err != nil {
+			return err
+		}
+		if textExcluded(string(c.Text)) {
+			return nil
+		}
 	}
 	_, err := check(c)
 	return err
